@@ -302,8 +302,13 @@ def oracle_local(ctx, sa, f, case, tags, passes, assigned_ok=True):
             m = impl_assign(sa, gp)
             mine = [p for p in gp if len(m.get(tuple(float(x) for x in p), [])) == 1 and m[tuple(float(x) for x in p)][0] is area]
             if mine:
-                with contextlib.redirect_stdout(io.StringIO()):
-                    vals = sa(mine)
+                try:
+                    with contextlib.redirect_stdout(io.StringIO()):
+                        vals = sa(mine)
+                except Exception as e:  # the property promises a value at every grid point of the area
+                    ok = (not ctx.violation("exception", dict(tags, where="__call__"), dict(case, area=ai),
+                                            {"exception": repr(e)[:300], "area": area_str(area)})) and ok
+                    continue
                 bad = []
                 for p, v in zip(mine, vals):
                     want = f.eval(p)
@@ -342,6 +347,8 @@ def compare_state(ctx, drv, sa, f, case, tags, cmp, thorough):
         if all(float(cg.coefficient) == int(cg.coefficient) for cg in sa.scheme) else "non-integer coefficient", drv.ask("scheme"))
     cmp("model-invariant", "1", drv.ask("wf"))
     ok = oracle_tiling(ctx, sa, case, tags)
+    if not ok:
+        return False  # areas that are not boxes tiling the domain: the remaining observables are meaningless
     # coarsen_grid of every (component grid, area)
     passes = []
     for ai, area in enumerate(objs):
@@ -443,6 +450,10 @@ def run_history(ctx, drv, case, rounds=None, nrounds=0, thorough=False):
             # no state to compare -- counted, the history ends here
             kind = type(e).__name__
             ctx.count("impl_exception_in_round_" + kind)
+            import traceback
+            lst = ctx.extra.setdefault("impl_exceptions_error_estimators", [])
+            if len(lst) < 3:
+                lst.append({"case": dict(case, rounds=list(case["rounds"])), "traceback": traceback.format_exc()[-700:]})
             if not (case["auto"] or case["single"]) or case["script"]:
                 ctx.violation("exception", dict(tags, where="refine"), dict(case, rounds=list(case["rounds"])),
                               {"exception": repr(e)[:300]})
